@@ -8,9 +8,9 @@ open EG
 
 private def alignOf : Nat → StrokeAlignment | 0 => .inside | 1 => .center | _ => .outside
 
-def parseCol (s : String) : Option Color := if s == "-" then none else some (parseNat s)
+private def parseCol (s : String) : Option Color := if s == "-" then none else some (parseNat s)
 
-def fmtCircle (c : Circle) : String := s!"{c.tl.x},{c.tl.y},{c.d}"
+private def fmtCircle (c : Circle) : String := s!"{c.tl.x},{c.tl.y},{c.d}"
 
 private def fmtCall : Call → String
   | .drawIter px => "di:" ++ fmtPix px
